@@ -46,3 +46,48 @@ Proof.
   intros c deck g ops i Hc Hcr He. apply (inv_offers _ (Inv_reachable c deck g ops Hc Hcr) He).
 Qed.
 Print Assumptions C04_no_offers_outside_betting_round.
+
+(* during a betting round exactly one player is offered actions: the seat to act, whose offer is the
+   action table of its situation (never empty); every other seat is offered nothing *)
+From PF Require Import ProofsOffers.
+Theorem C04_exactly_one_offered :
+  forall c deck g ops,
+    cfg_ok c -> create c deck = (g, Ok) ->
+    let s := run g ops in
+    st_event (g_st s) = EvRoundStarted ->
+    (st_cur (g_st s) < nplayers s)%nat /\
+    p_allowed (get_p s (st_cur (g_st s))) = available_actions (g_st s) (get_p s (st_cur (g_st s))) /\
+    p_allowed (get_p s (st_cur (g_st s))) <> [] /\
+    (forall i, i <> st_cur (g_st s) -> p_allowed (get_p s i) = []).
+Proof.
+  intros c deck g ops Hc Hcr s He. destruct (reachable_inv c deck g ops Hc Hcr) as [HI HO].
+  destruct (oi_cur _ HO He) as [Hr Ho]. fold s in Hr, Ho.
+  split; [exact Hr|split; [exact Ho|split; [|apply (oi_only _ HO)]]].
+  rewrite Ho. unfold available_actions. destruct (p_fold _); [discriminate|]. destruct (_ =? 0); discriminate.
+Qed.
+Print Assumptions C04_exactly_one_offered.
+
+(* an accepted action can only come from the seat to act during a betting round *)
+Theorem C04_only_the_player_to_act :
+  forall c deck g ops i a,
+    cfg_ok c -> create c deck = (g, Ok) ->
+    allowed (run g ops) i a = true ->
+    i = st_cur (g_st (run g ops)) /\ st_event (g_st (run g ops)) = EvRoundStarted.
+Proof.
+  intros c deck g ops i a Hc Hcr Ha. destruct (reachable_inv c deck g ops Hc Hcr) as [HI HO].
+  apply (accepted_is_current _ i a HI HO Ha).
+Qed.
+Print Assumptions C04_only_the_player_to_act.
+
+(* the turn passes seat by seat clockwise: after an accepted action that leaves the round open it is
+   the turn of seat (current + 1) mod n *)
+Theorem C04_clockwise :
+  forall c deck g ops who a x s',
+    cfg_ok c -> create c deck = (g, Ok) ->
+    step (run g ops) (OAct who a x) = (s', Ok) -> st_event (g_st s') = EvRoundStarted ->
+    st_cur (g_st s') = next_idx (run g ops).
+Proof.
+  intros c deck g ops who a x s' Hc Hcr Hs He. destruct (reachable_inv c deck g ops Hc Hcr) as [HI HO].
+  apply (turn_passes_clockwise _ who a x s' HI HO Hs He).
+Qed.
+Print Assumptions C04_clockwise.
